@@ -36,13 +36,31 @@ theorem update_action_spec (d d' : Db) (i n : Nat) (p : Pred) (asg : Asg)
   ⟨(update_spec h).1, update_mem h, (update_spec h).2.1, (update_spec h).2.2.2⟩
 
 -- non-vacuity, the Halloween case: `update t where k < 50 set k = k + 20` on k = 1, 2, 3
-example : (match update ⟨[⟨1, 1, 0⟩, ⟨2, 1, 0⟩, ⟨3, 1, 0⟩], []⟩ 0 (.cmp .k .lt 50) [(.k, .plus .k 20)] with
+example : (match update ⟨[⟨1, 1, 0⟩, ⟨2, 1, 0⟩, ⟨3, 1, 0⟩], [], []⟩ 0 (.cmp .k .lt 50) [(.k, .plus .k 20)] with
     | some (d', n) => d'.t == [⟨21, 1, 0⟩, ⟨22, 1, 0⟩, ⟨23, 1, 0⟩] && n == 3
     | none => false) = true := by decide
 
+/-- "in the way the statement specifies": a changed row differs from the selected row only in the
+columns the `set` list names — a column that is not assigned keeps its value (also when the
+statement goes through a `project` that does not show it, or a `rename`), and a column assigned
+once gets its expression evaluated on the row as selected. -/
+theorem update_only_assigned (asg : Asg) (r : R) (c : Col) (h : ∀ ce ∈ asg, ce.1 ≠ c) :
+    (applyAsg asg r).get c = r.get c :=
+  applyAsg_other asg r c h
+
+theorem update_assigned_value (r : R) (c : Col) (e : SetE) (pre post : Asg)
+    (h : ∀ ce ∈ post, ce.1 ≠ c) :
+    (applyAsg (pre ++ (c, e) :: post) r).get c = e.eval r :=
+  applyAsg_single r c e pre post h
+
+-- `set a = b, b = a` (a swap): the hypothesis holds for column a (assigned first, b after it)
+example : ∀ ce ∈ ([(Col.b, SetE.plus .a 0)] : Asg), ce.1 ≠ Col.a := by
+  intro ce h; simp_all
+
 /-- insert of a query: the selected rows of t are added to u, t is unchanged, keys of u stay unique -/
-theorem insert_query_spec (d d' : Db) (n : Nat) (p : Pred) (h : insertQuery d p = some (d', n)) :
-    d'.u = d.u ++ d.t.filter p.eval ∧ d'.t = d.t ∧ dupFree (keys d'.u) = true :=
+theorem insert_query_spec (d d' : Db) (n : Nat) (p : Pred) (join : Bool)
+    (h : insertQuery d p join = some (d', n)) :
+    d'.u = d.u ++ d.t.filter (selQ d p join) ∧ d'.t = d.t ∧ dupFree (keys d'.u) = true :=
   ⟨(insertQuery_spec h).1, (insertQuery_spec h).2.1, (insertQuery_spec h).2.2.2⟩
 
 /-- insert of a record: the row is added, only when its key is new -/
@@ -54,9 +72,9 @@ theorem insert_record_spec (d d' : Db) (i n : Nat) (r : R) (h : insert d i r = s
 theorem count_reported (d d' : Db) (i n : Nat) (p : Pred) (asg : Asg) (r : R) :
     (delete d i p = some (d', n) → n = ((d.get i).filter p.eval).length) ∧
     (update d i p asg = some (d', n) → n = ((d.get i).filter p.eval).length) ∧
-    (insertQuery d p = some (d', n) → n = (d.t.filter p.eval).length) ∧
+    (∀ j, insertQuery d p j = some (d', n) → n = (d.t.filter (selQ d p j)).length) ∧
     (insert d i r = some (d', n) → n = 1) :=
   ⟨fun h => (delete_spec h).2.2, fun h => (update_spec h).2.2.1,
-   fun h => (insertQuery_spec h).2.2.1, fun h => (insert_spec h).2.2.1⟩
+   fun _ h => (insertQuery_spec h).2.2.1, fun h => (insert_spec h).2.2.1⟩
 
 end Gsu.Props.C24
